@@ -12,7 +12,7 @@
     scanning the combination list for the next `Wrap` (`Method.Call`, `WhopLoc.Continue`,
     `WhopLoc.HasNext`) and the three loops of `Method.InnerCall`;
   * the *specification* layer, written from the property statement: an abstract method table
-    `Table = Key → Qual → Option Body` updated by `defmethod`/`remove` only, the lexicographic
+    `Table = Key → Qual → Option Body` updated by `defmethod`/`remove` (and emptied by a re-evaluated `defgeneric`) only, the lexicographic
     enumeration `keys` of the applicable specializer tuples, and `spec`: all :around most specific
     first, all :before most specific first, the most specific primary, all :after least specific
     first, `call-next-method` walking that order.  No cache, no fast path.
@@ -259,6 +259,11 @@ inductive Op where
   | call (precs : Precs)
   /-- `(compute-applicable-methods g args)` for arguments with these precedence lists -/
   | methods (precs : Precs)
+  /-- `(defgeneric g …)` evaluated again for the existing generic function `g` (same lambda list,
+      no `:method` options — those are `defmethod`s following it): `Defgeneric.Call` builds a new
+      `Aux` with `NewAux` and `Define` installs it in place of the old one; every method, the cache
+      and the fast path of the earlier definition are gone. -/
+  | redefine
   deriving DecidableEq, Repr
 
 /-- The generic function's shape: `tC` the class `t`, `n` the number of required arguments. -/
@@ -288,6 +293,7 @@ def step (E : Env) (a : Aux) : Op → Aux × Out
         if eff.isEmpty then (a, ⟨[], .noApplicable⟩)
         else ({ a with cache := insert a.cache precs eff }, callEff eff)
   | .methods precs => (a, ⟨[], .methods (compMethList a.methods precs)⟩)
+  | .redefine => (Aux.init, Out.nothing)
 
 /-- run a history; the outcomes of its operations in order -/
 def runOps (E : Env) : Aux → List Op → Aux × List Out
@@ -310,13 +316,15 @@ def Table.empty : Table := fun _ _ => none
 def Table.set (t : Table) (k : Key) (q : Qual) (b : Option Body) : Table :=
   fun k' q' => if k' = k ∧ q' = q then b else t k' q'
 
-/-- the table defined by a history: only defmethod and remove-method matter -/
+/-- the table defined by a history: only defmethod, remove-method and a re-evaluated defgeneric
+    (which empties it) matter -/
 def tableOf : List Op → Table → Table
   | [], t => t
   | .defmethod q k b :: ops, t => tableOf ops (t.set k q (some b))
   | .remove q k :: ops, t => tableOf ops (t.set k q none)
   | .call _ :: ops, t => tableOf ops t
   | .methods _ :: ops, t => tableOf ops t
+  | .redefine :: ops, _ => tableOf ops Table.empty
 
 /-- all specializer tuples applicable to arguments with the given precedence lists, most specific
     first: lexicographic over the arguments left to right, each in precedence-list order -/
@@ -370,5 +378,6 @@ def specOuts : List Op → Table → List Out
   | .methods precs :: ops, t => ⟨[], .methods (specMethodList t precs)⟩ :: specOuts ops t
   | .defmethod q k b :: ops, t => Out.nothing :: specOuts ops (t.set k q (some b))
   | .remove q k :: ops, t => Out.nothing :: specOuts ops (t.set k q none)
+  | .redefine :: ops, _ => Out.nothing :: specOuts ops Table.empty
 
 end SlipVerif.Dispatch
